@@ -1,2 +1,4 @@
-import CorgiSpec.Oracle
 import CorgiSpec.Index
+import CorgiSpec.Ops
+import CorgiSpec.Dual
+import CorgiSpec.Oracle
